@@ -564,5 +564,160 @@ theorem quiescent_residue (P : Prims) (k : DirKeys) {s : Rx} {r : Bytes}
         · cases hq
         · split at hq <;> cases hq
 
+/-! ## the sender: `Write` produces an honest packet list -/
+
+
+theorem c_pay_pos : 0 < maxPayloadLength := by decide
+
+theorem splitPayload_spec : ∀ (fuel : Nat) (b : Bytes), b.length < fuel →
+    (splitPayload fuel b).flatten = b ∧ ∀ d ∈ splitPayload fuel b, d.length ≤ maxPayloadLength := by
+  intro fuel
+  induction fuel with
+  | zero => intro b h; omega
+  | succ f ih =>
+    intro b h
+    cases b with
+    | nil => simp [splitPayload]
+    | cons x r =>
+      have hp := c_pay_pos
+      have hlen : ((x :: r).drop maxPayloadLength).length < f := by
+        simp only [List.length_drop, List.length_cons] at h ⊢; omega
+      obtain ⟨h1, h2⟩ := ih _ hlen
+      simp only [splitPayload, List.flatten_cons, h1, List.take_append_drop, true_and]
+      intro d hd
+      rcases List.mem_cons.mp hd with rfl | hd
+      · rw [List.length_take]; omega
+      · exact h2 d hd
+
+theorem payloadBytes_append (a b : List (Nat × Bytes × Nat)) : payloadBytes (a ++ b) = payloadBytes a ++ payloadBytes b := by
+  induction a with
+  | nil => rfl
+  | cons x r ih =>
+    obtain ⟨f, d, p⟩ := x
+    simp only [List.cons_append, payloadBytes, ih]
+    split <;> simp
+
+theorem payloadBytes_data (ds : List Bytes) :
+    payloadBytes (ds.map (fun d => (pktPayload, d, 0))) = ds.flatten := by
+  induction ds with
+  | nil => rfl
+  | cons d r ih => simp [payloadBytes, ih]
+
+theorem payloadBytes_pad (ps : List Int) :
+    payloadBytes (ps.map (fun p => (pktPayload, ([] : Bytes), p.toNat))) = [] := by
+  induction ps with
+  | nil => rfl
+  | cons d r ih => simp [payloadBytes, ih]
+
+theorem sendAll_append (P : Prims) : ∀ (a b : List (Nat × Bytes × Nat)) (cs : CState),
+    sendAll P cs (a ++ b) = match sendAll P cs a with
+      | none => none
+      | some (cs1, w1) => match sendAll P cs1 b with
+        | none => none
+        | some (cs2, w2) => some (cs2, w1 ++ w2) := by
+  intro a
+  induction a with
+  | nil => intro b cs; simp only [List.nil_append, sendAll]; cases sendAll P cs b <;> simp
+  | cons x r ih =>
+    intro b cs
+    obtain ⟨f, d, p⟩ := x
+    simp only [List.cons_append, sendAll]
+    cases makePacket P cs f d p with
+    | none => rfl
+    | some r1 =>
+      obtain ⟨cs1, w⟩ := r1
+      simp only [ih]
+      cases sendAll P cs1 r with
+      | none => rfl
+      | some r2 =>
+        obtain ⟨cs2, w2⟩ := r2
+        simp only
+        cases sendAll P cs2 b with
+        | none => rfl
+        | some r3 => simp [List.append_assoc]
+
+
+
+
+theorem sendAll_eq' (P : Prims) (k : DirKeys) : ∀ (pkts : List (Nat × Bytes × Nat)) (o : Nat),
+    (∀ x ∈ pkts, x.2.1.length + x.2.2 ≤ maxPayloadLength) →
+    sendAll P ⟨k, o⟩ pkts = some (⟨k, offAfter o pkts⟩, encodeAll P k o pkts) := by
+  intro pkts
+  induction pkts with
+  | nil => intro o _; rfl
+  | cons x r ih =>
+    intro o h
+    obtain ⟨f, d, p⟩ := x
+    have hx : d.length + p ≤ maxPayloadLength := h (f, d, p) List.mem_cons_self
+    have ho' := ih (o + (pktHdrLength + d.length + p)) (fun y hy => h y (List.mem_cons_of_mem _ hy))
+    simp only [sendAll, makePacket, if_neg (Nat.not_lt.mpr hx), ho', encodeAll, offAfter]
+
+theorem encodeAll_append (P : Prims) (k : DirKeys) : ∀ (a b : List (Nat × Bytes × Nat)) (o : Nat),
+    encodeAll P k o (a ++ b) = encodeAll P k o a ++ encodeAll P k (offAfter o a) b := by
+  intro a
+  induction a with
+  | nil => intro b o; rfl
+  | cons x r ih =>
+    intro b o
+    obtain ⟨f, d, p⟩ := x
+    simp only [List.cons_append, encodeAll, offAfter, ih, List.append_assoc]
+
+/-- payload packets of `Write(b)` -/
+def payloadPkts (b : Bytes) : List (Nat × Bytes × Nat) :=
+  (splitPayload (b.length + 1) b).map (fun d => (pktPayload, d, 0))
+/-- padding packets for the padding lengths `pads` -/
+def padPkts (pads : List Int) : List (Nat × Bytes × Nat) := pads.map (fun p => (pktPayload, ([] : Bytes), p.toNat))
+/-- the padding lengths `padBurst` chooses in `Write(b)` at keystream offset `o` -/
+def writePads (P : Prims) (k : DirKeys) (o : Nat) (b : Bytes) (sample : Nat) : List Int :=
+  padBurstLens (encodeAll P k o (payloadPkts b)).length sample
+/-- all packets of `Write(b)` -/
+def writePkts (P : Prims) (k : DirKeys) (o : Nat) (b : Bytes) (sample : Nat) : List (Nat × Bytes × Nat) :=
+  payloadPkts b ++ padPkts (writePads P k o b sample)
+
+/-- `Write(b)` writes the honest encoding of its payload packets followed by its padding packets,
+    whenever the padding lengths are within `[0, maxPayloadLength]` -/
+theorem connWrite_eq (P : Prims) (k : DirKeys) (o : Nat) (b : Bytes) (sample : Nat)
+    (hp : ∀ burstLen, ∀ p ∈ padBurstLens burstLen sample, 0 ≤ p ∧ p ≤ (maxPayloadLength : Int)) :
+    connWrite P ⟨k, o⟩ b sample
+      = some (⟨k, offAfter o (writePkts P k o b sample)⟩, encodeAll P k o (writePkts P k o b sample)) ∧
+    (∀ x ∈ writePkts P k o b sample, PktOK x.1 x.2.1 x.2.2) ∧ payloadBytes (writePkts P k o b sample) = b := by
+  obtain ⟨hflat, hfit⟩ := splitPayload_spec (b.length + 1) b (Nat.lt_succ_self _)
+  have hpads := hp (encodeAll P k o (payloadPkts b)).length
+  have h1 := sendAll_eq' P k (payloadPkts b) o (by
+    intro x hx
+    obtain ⟨d, hd, rfl⟩ := List.mem_map.mp hx
+    simpa using hfit d hd)
+  have h2 := sendAll_eq' P k (padPkts (writePads P k o b sample)) (offAfter o (payloadPkts b)) (by
+    intro x hx
+    obtain ⟨p, hpm, rfl⟩ := List.mem_map.mp hx
+    have := hpads p hpm
+    simp only [List.length_nil, Nat.zero_add]
+    omega)
+  have hany : (writePads P k o b sample).any (· < 0) = false := by
+    rw [List.any_eq_false]
+    intro p hpm
+    have := (hpads p hpm).1
+    simp only [decide_eq_true_eq]; omega
+  have hoff : ∀ (a c : List (Nat × Bytes × Nat)) (o : Nat), offAfter o (a ++ c) = offAfter (offAfter o a) c := by
+    intro a
+    induction a with
+    | nil => intro c o; rfl
+    | cons x r ih => intro c o; obtain ⟨f, d, p⟩ := x; simp only [List.cons_append, offAfter, ih]
+  refine ⟨?_, ?_, ?_⟩
+  · have e1 : (splitPayload (b.length + 1) b).map (fun d => (pktPayload, d, 0)) = payloadPkts b := rfl
+    have e2 : padBurstLens (encodeAll P k o (payloadPkts b)).length sample = writePads P k o b sample := rfl
+    have e3 : (writePads P k o b sample).map (fun p => (pktPayload, ([] : Bytes), p.toNat))
+        = padPkts (writePads P k o b sample) := rfl
+    simp only [connWrite, e1, h1, e2, hany, Bool.false_eq_true, ↓reduceIte, e3, h2, writePkts, encodeAll_append, hoff]
+  · intro x hx
+    rcases List.mem_append.mp hx with hx | hx
+    · obtain ⟨d, hd, rfl⟩ := List.mem_map.mp hx
+      exact ⟨by simpa using hfit d hd, (by show pktPayload < 256; decide), by simp [dispatch]⟩
+    · obtain ⟨p, hpm, rfl⟩ := List.mem_map.mp hx
+      have := hpads p hpm
+      exact ⟨by simp only [List.length_nil, Nat.zero_add]; omega, (by show pktPayload < 256; decide), by simp [dispatch]⟩
+  · rw [writePkts, payloadBytes_append, payloadPkts, padPkts, payloadBytes_data, payloadBytes_pad, hflat, List.append_nil]
+
+
 end SS
 end O4
